@@ -10,7 +10,8 @@
    in the read's reference span, deleted/skipped positions included -- what
    samtools bedcov was measured to count); C09_spanned_is_aligned /
    C09_pileup_counts_aligned_bases show they coincide on reads without D/N. *)
-From CNV Require Import Base.Prelude Base.Str Gen.Params Gen.CoverageDefaults
+From Coq Require Import Permutation Sorting.Sorted.
+From CNV Require Import Base.Prelude Base.Str Gen.Params Gen.CoverageDefaults Model.Chromsort
   Model.Coverage Spec.Coverage Proofs.Coverage Gen.FnCoverage Proofs.FnCoverage.
 
 (* the generated constants the statements below rely on *)
@@ -136,3 +137,175 @@ Theorem C09_source_filter_read :
                    (flag_bit (r_flag r) 512) (r_mapq r) cut
     = counted cut r.
 Proof. exact fn_filter_read_eq. Qed.
+
+(* ---- source tie: the scalar tail of region_depth_count, translated as a fragment of the
+   function on every run (Gen/FnCoverage.v: fn_region_tail bases start end log2_depth NULL =
+   (depth, 5th element of the row tuple)):
+     depth = bases / (end - start) if end > start else 0
+     row   = (chrom, start, end, gene, math.log(depth, 2) if depth else NULL_LOG2_COVERAGE, depth)
+   `bases` (the loop's accumulator) and the value of math.log(depth, 2) are inputs;
+   fn_region_depth bases lo hi is the first component.  tools/fnspecs/coverage.py also checks
+   the other five elements of the row tuple and that the function returns (count, row). *)
+Theorem C09_source_depth : forall bases lo hi,
+  (fn_region_depth bases lo hi == count_depth bases lo hi)%Q /\
+  (lo < hi -> (fn_region_depth bases lo hi == inject_Z bases / inject_Z (hi - lo))%Q) /\
+  (hi <= lo -> fn_region_depth bases lo hi = 0%Q) /\
+  Qeq_bool (fn_region_depth bases lo hi) 0 = Qeq_bool (count_depth bases lo hi) 0.
+Proof. exact fn_region_depth_clause. Qed.
+
+(* the row's log2 is log2(depth) of the code's own depth, or -20 when that depth is 0 *)
+Theorem C09_source_log2 : forall (log2o : Q -> Q) bases lo hi,
+  let d := fn_region_depth bases lo hi in
+  snd (fn_region_tail bases lo hi (log2o d) (-20 # 1)%Q) = count_log2 log2o d /\
+  fst (fn_region_tail bases lo hi (log2o d) (-20 # 1)%Q) = d.
+Proof. exact fn_region_log2_clause. Qed.
+
+(* ---- the text layer of the pileup path ------------------------------------------ *)
+
+(* for every well-formed bedcov text of a k-column BED (k = 3, 4, 5, 6, ...: any k >= 3;
+   fields without tab / line end, and -- under pandas' default quoting -- not beginning with a
+   double quote) the table bedcov() reads carries, line by line, that bin's chromosome, start,
+   end, its name (4th column; none for k = 3) and the base count; whatever the quoting mode q *)
+Theorem C09_bedcov_parse : forall q ncols bins counts,
+  bins <> [] -> length counts = length bins -> Forall (wf_bedline q ncols) bins ->
+  parse_bedcov_q q (bedcov_text bins counts) = Some (map parsed_of (combine bins counts)).
+Proof. exact bedcov_parse_ok. Qed.
+
+(* the columns detect_bedcov_columns names for 3, 4 and 6 tabs in the first line *)
+Example C09_detect_3 : detect_bedcov_columns (chars "c	1	2	0
+") = DetectCols ["chromosome"; "start"; "end"; "basecount"]%string.
+Proof. reflexivity. Qed.
+Example C09_detect_4 : detect_bedcov_columns (chars "c	1	2	g	0
+") = DetectCols ["chromosome"; "start"; "end"; "gene"; "basecount"]%string.
+Proof. reflexivity. Qed.
+Example C09_detect_6 : detect_bedcov_columns (chars "c	1	2	g	0	+	7
+") = DetectCols ["chromosome"; "start"; "end"; "gene"; "_1"; "_2"; "basecount"]%string.
+Proof. reflexivity. Qed.
+Example C09_detect_bad : detect_bedcov_columns (chars "c	1	2
+") = DetectBadLine.
+Proof. reflexivity. Qed.
+
+(* the mode the code uses is csv.QUOTE_NONE (quoting=3 in bedcov's read_csv since /repo
+   0ba5218): names are kept verbatim whatever quote characters they hold -- no condition on
+   quotes at all *)
+Example C09_quoting_is_quote_none : BEDCOV_QUOTING = 3 := eq_refl.
+
+Theorem C09_names_verbatim : forall ncols bins counts,
+  bins <> [] -> length counts = length bins -> Forall (plain_bedline ncols) bins ->
+  parse_bedcov (bedcov_text bins counts) = Some (map parsed_of (combine bins counts)).
+Proof. exact bedcov_parse_verbatim. Qed.
+
+(* samtools' text for the regions of a part, parsed and assembled (depth = basecount / span,
+   log2, "-" for a missing name, zero-span rows), is the pileup table of the part; over any
+   split of the regions into non-empty parts, concatenated in order, the text pipeline
+   yields the pileup table of all the regions *)
+Theorem C09_pileup_text : forall (log2o : Q -> Q) cut reads ncols parts,
+  Forall (fun part => part <> [] /\ Forall (plain_bedline ncols) part) parts ->
+  pileup_via_text log2o cut reads parts = Some (coverage log2o Pileup cut reads (concat parts)).
+Proof. exact pileup_via_text_verbatim. Qed.
+
+Theorem C09_pileup_text_chunks : forall (log2o : Q -> Q) cut reads ncols k bins,
+  (1 <= k)%nat -> Forall (plain_bedline ncols) bins ->
+  pileup_via_text log2o cut reads (chunks k bins) = Some (coverage log2o Pileup cut reads bins).
+Proof. exact pileup_via_text_chunks_verbatim. Qed.
+
+(* why the mode matters: under pandas' default quoting (mode 0, the code before /repo 0ba5218)
+   a name beginning with a double quote is NOT kept *)
+Theorem C09_quoted_name_refuted :
+  exists b n, Forall plain_field (bed_chrom b :: match b with (_, _, _, rest) => rest end) /\
+              parse_bedcov_q 0 (bedcov_text [b] [n]) <> Some [parsed_of (b, n)].
+Proof. exact quoted_name_refuted. Qed.
+
+(* with csv.QUOTE_NONE (mode 3) plain fields are all that is needed *)
+Theorem C09_quote_none_verbatim : forall ncols b, plain_bedline ncols b -> wf_bedline 3 ncols b.
+Proof. exact wf_quote_none. Qed.
+
+Example C09_ex_wf_bedline : wf_bedline 0 6 ("chr1", 100, 150, ["a""b"; "0"; "+"])%string.
+Proof. split; [reflexivity|]. repeat constructor; right; reflexivity. Qed.
+
+Example C09_ex_plain_bedline : plain_bedline 4 ("chr1", 100, 150, ["""TP53"""])%string.
+Proof. split; [reflexivity|]. repeat constructor. Qed.
+
+Example C09_ex_parse :
+  parse_bedcov (bedcov_text [("chr1", 100, 150, ["NA"; "0"; "+"]); ("1", 7, 7, ["""007"""; "1e3"; "-"])]%string [80; 0])
+  = Some [("chr1", 100, 150, Some "NA", 80); ("1", 7, 7, Some """007""", 0)]%string.
+Proof. vm_compute. reflexivity. Qed.
+
+(* ---- parallel.to_chunks ------------------------------------------------------------ *)
+
+(* the pieces concatenate to the file's lines without the comment lines, in order; every
+   piece has between 1 and chunk_size lines, all but the last exactly chunk_size *)
+Theorem C09_to_chunks : forall k lines,
+  (1 <= k)%nat ->
+  concat (to_chunks_lines k lines) = filter keep_line lines /\
+  Forall (fun piece => (1 <= length piece <= k)%nat) (to_chunks_lines k lines) /\
+  Forall (fun piece => length piece = k) (removelast (to_chunks_lines k lines)).
+Proof. exact to_chunks_clause. Qed.
+
+(* the dropped lines are exactly those whose first character is "#" *)
+Theorem C09_to_chunks_comment : forall l, keep_line l = false <-> exists t, l = String "#"%char t.
+Proof. exact keep_line_hash. Qed.
+
+Example C09_ex_to_chunks :
+  to_chunks_lines 2 ["#h"; "a"; "b"; "#c"; ""; "d"; "e"]%string = [["a"; "b"]; [""; "d"]; ["e"]]%string.
+Proof. reflexivity. Qed.
+
+(* C09_chunks at the level of the regions FILE: whatever samtools' BED line reader is, as
+   long as it skips the "#" lines that to_chunks drops, the chunked pileup table (pieces of
+   chunk_size lines, tables concatenated in order) is the table of the whole file, and its
+   rows carry the bins' identities in the order of the file's lines *)
+Theorem C09_pileup_order : forall (log2o : Q -> Q) (bed_of_line : string -> option bedline) k cut reads lines,
+  (forall l, keep_line l = false -> bed_of_line l = None) -> (1 <= k)%nat ->
+  pileup_file_chunked log2o bed_of_line k cut reads lines = pileup_file log2o bed_of_line cut reads lines /\
+  map row_key (pileup_file log2o bed_of_line cut reads lines) = map bin_key (bins_of_lines bed_of_line lines).
+Proof. exact pileup_order_clause. Qed.
+
+(* ---- row order of the --count table --------------------------------------------------- *)
+
+(* the table holds every region exactly once; the rows of each chromosome are those of the
+   table sorted by (chromosome key, start, end) -- stable --, in that order; every row
+   keeps its bin's identity *)
+Theorem C09_count_order : forall (log2o : Q -> Q) cut reads bins,
+  Permutation (count_order bins) bins /\
+  (forall c, rows_of_chrom c (count_order bins) = rows_of_chrom c (sort_regions bed_region bins)) /\
+  region_sorted (sort_regions bed_region bins) /\
+  map row_key (coverage_count_table log2o cut reads bins) = map bin_key (count_order bins).
+Proof. exact count_order_clause. Qed.
+
+(* when distinct chromosome names have distinct sort keys (always, unless the file mixes
+   e.g. "chr1" and "1") the table is exactly the sorted one *)
+Theorem C09_count_order_sorted : forall bins,
+  keys_separate_names bins ->
+  count_order bins = sort_regions bed_region bins /\ region_sorted (count_order bins).
+Proof. exact count_order_sorted_clause. Qed.
+
+Example C09_ex_count_order :
+  map bin_key (count_order [("chr2", 5, 6, ["a"]); ("chr1", 9, 10, []); ("1", 3, 4, ["z"]); ("chr1", 1, 2, ["q"])]%string)
+  = [("chr1", 1, 2, "q"); ("chr1", 9, 10, "-"); ("1", 3, 4, "z"); ("chr2", 5, 6, "a")]%string.
+Proof. vm_compute. reflexivity. Qed.
+
+(* reads without D/N: the --count table is the pileup table with its rows in --count order *)
+Theorem C09_tables_agree : forall (log2o : Q -> Q) cut reads bins,
+  Forall wf_read reads -> Forall no_refskip reads ->
+  coverage_count_table log2o cut reads bins = coverage log2o Pileup cut reads (count_order bins).
+Proof. exact count_table_is_pileup. Qed.
+
+(* ---- min_mapq across both algorithms ---------------------------------------------------- *)
+
+(* min_mapq = 0: both algorithms count every read without one of the four flags;
+   min_mapq = q > 0: both count exactly those with mapping quality >= q (the pileup passes
+   -Q q to samtools only then) *)
+Theorem C09_min_mapq : forall q r,
+  0 <= r_mapq r ->
+  (q = 0 -> counted q r = negb (flag_excluded (r_flag r)) /\
+            counted (pileup_cut q) r = negb (flag_excluded (r_flag r))) /\
+  (0 < q -> counted q r = negb (flag_excluded (r_flag r)) && (q <=? r_mapq r) /\
+            counted (pileup_cut q) r = negb (flag_excluded (r_flag r)) && (q <=? r_mapq r)) /\
+  pileup_cut q = (if 0 <? q then q else 0).
+Proof. exact min_mapq_clause. Qed.
+
+(* the supplementary flag 0x800 (and the pairing flags) are not among the excluded ones *)
+Example C09_supplementary_counted : counted 0 (mkRead "chr1" 2048 0 100 [(0, 50)]) = true.
+Proof. reflexivity. Qed.
+Example C09_paired_counted : counted 30 (mkRead "chr1" (1 + 2 + 32 + 64 + 2048) 30 100 [(0, 50)]) = true.
+Proof. reflexivity. Qed.
